@@ -64,6 +64,9 @@ PRELUDE = '''import sys as _sys, types as _types
 class _Obj:
     def __init__(self, **kw):
         self.__dict__.update(kw)
+class _FObj(_Obj):
+    def __len__(self):
+        return 0
 def _func(name):
     def f(*a, **k):
         return (name, a, k)
@@ -83,6 +86,8 @@ def val_expr(v):
     kw = ', '.join(f'{n!r}: {val_expr(x)}' for n, x in attrs)
     if t == 'cls':
         return f'type({v.get("name", "Cls")!r}, (), {{{kw}}})'
+    if t == 'fobj':      # an object that is falsy (an empty registry) and still has attributes: a name may lead THROUGH it
+        return f'_FObj(**{{{kw}}})'
     return f'_Obj(**{{{kw}}})'
 
 def module_source(dotted, ms):
@@ -271,7 +276,7 @@ def spec_expect(world, symbol):
             return ('skip', 'attribute of a builtin-typed value')
         hit = [v for n, v in cur.get('attrs') or [] if n == el]
         if not hit:
-            if el.startswith('__') or (cur['t'] in ('cls', 'obj') and hasattr(object, el)):
+            if el.startswith('__') or (cur['t'] in ('cls', 'obj', 'fobj') and hasattr(object, el)):
                 return ('skip', 'inherited attribute')
             return ('fail',)
         cur = hit[-1]
@@ -359,13 +364,13 @@ def oracle(case, io):
 # ------------------------------------------------------------------------------------------------
 
 def gen_val(rng, depth=0):
-    t = rng.choice(['obj', 'obj', 'cls', 'cls', 'func', 'none', 'zero'] if depth < 2 else ['func', 'none', 'obj'])
+    t = rng.choice(['obj', 'obj', 'cls', 'cls', 'func', 'none', 'zero', 'fobj', 'fobj'] if depth < 2 else ['func', 'none', 'obj'])
     v = {'t': t}
     if t == 'cls':
         v['name'] = rng.choice(['Cls', 'f', 'aymod', 'K', 'sub'])
     if t == 'func':
         v['name'] = rng.choice(['make', 'f', 'len'])
-    if t in ('obj', 'cls'):
+    if t in ('obj', 'cls', 'fobj'):
         v['attrs'] = [[n, gen_val(rng, depth + 1)] for n in rng.sample(ATTRS, rng.choice([0, 1, 2, 3]))]
     return v
 
